@@ -15,7 +15,14 @@ for r in sys.argv[1:]:
         print(r, "does not apply at HEAD", flush=True); continue
     suite = sh("/venv/bin/python -m pytest -q -p no:cacheprovider tests 2>&1 | tail -1", cwd=wt, env=dict(os.environ, PYTHONPATH=f"{wt}/src")).stdout.strip()
     res = {}
-    for pid in PIDS:
+    pids = PIDS
+    if os.environ.get("BENIGN_RELEVANT"):
+        import re
+        sys.path.insert(0, os.path.dirname(__file__))
+        from mutate import FILES
+        touched = re.findall(r"^diff --git a/(\S+)", open(f"{d}/patch.diff").read(), re.M)
+        pids = sorted({c for f in touched for c in FILES.get(f, PIDS)})
+    for pid in pids:
         p = sh(f"./check {pid}", cwd="/verif", env=dict(os.environ, DEP_LOGIC_SRC=f"{wt}/src"))
         res[pid] = p.returncode
         if p.returncode != 0:
